@@ -251,15 +251,30 @@ def run(P, R, tier):
             mask_stmt = s
         elif isinstance(s, ast.Assign) and isinstance(s.value, (ast.BinOp, ast.BoolOp)) and all(k in norm(s.value) for k in ('.x0', '.x1', '.y0', '.y1')):
             mask_stmt = s
+    inline_use = None
     if mask_stmt is None:
-        raise AnalysisError('C12.d: mask assignment not found in the bounds filter block')
-    mask_name = mask_stmt.targets[0].id
-    pre = blk.body[:blk.body.index(mask_stmt) + 1]
+        # the mask is used once and written in place (`partitions_df[~(...)]`): give it a name for the evaluation below
+        for s in blk.body:
+            for n in ast.walk(s):
+                if isinstance(n, ast.Subscript) and isinstance(n.slice, (ast.UnaryOp, ast.BinOp, ast.BoolOp)) and all(k in norm(n.slice) for k in ('.x0', '.x1', '.y0', '.y1')):
+                    inline_use = (s, n)
+        if inline_use is None:
+            raise AnalysisError('C12.d: mask assignment not found in the bounds filter block')
+        mask_stmt = ast.Assign(targets=[ast.Name(id='__mask', ctx=ast.Store())], value=inline_use[1].slice, lineno=inline_use[0].lineno)
+        ast.fix_missing_locations(mask_stmt)
+        mask_name = '__mask'
+        k0 = blk.body.index(inline_use[0])
+        pre = blk.body[:k0] + [mask_stmt]
+        rest = blk.body[k0:]
+    else:
+        mask_name = mask_stmt.targets[0].id
+        pre = blk.body[:blk.body.index(mask_stmt) + 1]
+        rest = blk.body[blk.body.index(mask_stmt) + 1:]
     _eval_filter(R, perform, pre, mask_name, tier)
 
     # C12.e: same mask everywhere
-    uses = []
-    for s in blk.body[blk.body.index(mask_stmt) + 1:]:
+    uses = [inline_use] if inline_use is not None else []
+    for s in rest:
         for n in ast.walk(s):
             if isinstance(n, ast.Subscript) and isinstance(n.slice, ast.Name) and n.slice.id == mask_name:
                 uses.append((s, n))
